@@ -240,9 +240,9 @@ class SubMutezInstruction(MichelsonInstruction, prim='SUB_MUTEZ'):
         a, b = cast(Tuple[MutezType, MutezType], stack.pop2())
         a.assert_type_equal(MutezType)
         b.assert_type_equal(MutezType)
-        try:
+        if int(a) >= int(b):
             res = OptionType.from_some(MutezType.from_value(int(a) - int(b)))
-        except OverflowError:
+        else:
             res = OptionType.none(MutezType)
         stack.push(res)
         stdout.append(format_stdout(cls.prim, [a, b], [res]))  # type: ignore
